@@ -39,6 +39,9 @@ func kdcProxyFor(n int) kdcproxy.KerberosProxy {
 		fmt.Fprintf(&sb, "  kdc = kdc%d.example.com:88\n", i)
 	}
 	sb.WriteString(" }\n SECOND.ORG = {\n  kdc = kdc.second.org:88\n }\n")
+	// a child realm with its own KDC, and the customary mapping of DNS names to realms (which is about host
+	// names, not about realm names: a realm name that is configured, or not, stays what it is)
+	sb.WriteString(" EMEA.EXAMPLE.COM = {\n  kdc = kdc.emea.example.com:88\n }\n\n[domain_realm]\n .example.com = EXAMPLE.COM\n example.com = EXAMPLE.COM\n .second.org = SECOND.ORG\n")
 	os.WriteFile(path, []byte(sb.String()), 0o644)
 	p := kdcproxy.InitKdcProxy(path)
 	os.Remove(path)
@@ -107,6 +110,10 @@ func kdcBody(msg []byte, realm string) []byte {
 		return der.KdcProxyMessage(msg, "EXAMPLE.COM", true, 0, false)
 	case "second":
 		return der.KdcProxyMessage(msg, "SECOND.ORG", true, 1, true)
+	case "child":
+		return der.KdcProxyMessage(msg, "EMEA.EXAMPLE.COM", true, 0, false)
+	case "unknown-sub":
+		return der.KdcProxyMessage(msg, "LAB.EXAMPLE.COM", true, 0, false)
 	}
 	return der.KdcProxyMessage(msg, "NOWHERE.INVALID", true, 0, false)
 }
@@ -272,7 +279,7 @@ func kdcCheck(sc KdcScenario, res *KdcResult) (outcome string, v []vsched.Violat
 	if res.Code == 0 {
 		add("request-never-answered", "handler returned without a status")
 	}
-	configured := sc.Realm != "unknown"
+	configured := sc.Realm != "unknown" && sc.Realm != "unknown-sub"
 	// who could have answered
 	var good []*kdcConn
 	for _, c := range res.Conns {
@@ -293,6 +300,8 @@ func kdcCheck(sc KdcScenario, res *KdcResult) (outcome string, v []vsched.Violat
 		}
 	case "second":
 		wantRealmHosts["kdc.second.org:88"] = true
+	case "child":
+		wantRealmHosts["kdc.emea.example.com:88"] = true
 	}
 	for _, d := range res.Dials {
 		if !wantRealmHosts[d.Address] {
@@ -360,8 +369,11 @@ func c20Scenarios(thorough bool) []KdcScenario {
 	}
 	// 1 KDC: full product of behaviours x realms x sizes
 	sizes := []int{0, 1, 3, 4, 5, 100, 1500, 65535, 128*1024 - 32}
-	for _, realm := range []string{"default", "absent", "second", "unknown"} {
+	for _, realm := range []string{"default", "absent", "second", "unknown", "child", "unknown-sub"} {
 		for _, size := range sizes {
+			if (realm == "child" || realm == "unknown-sub") && size != 100 && size != 65535 {
+				continue
+			}
 			for _, u := range udpB {
 				for _, t := range tcpB {
 					s := KdcScenario{NKdc: 1, Realm: realm, Size: size, UDP: []string{u}, TCP: []string{t}}
@@ -397,7 +409,7 @@ func c20Scenarios(thorough bool) []KdcScenario {
 
 func c20(env *Env, rep *Report) {
 	scs := c20Scenarios(env.thorough())
-	rep.Rule = fmt.Sprintf("%d request scenarios against the real kdcproxy handler with scripted KDC connections: 1 KDC: realms {default, absent, second, unknown} x Kerberos payload sizes {0,1,3,4,5,100,1500,65535,128KiB-32} x UDP behaviour {reply, silent, refuse} x TCP behaviour {reply then close, reply and keep open, reply in two writes, half a reply then close, close at once, silent, refuse}; 2 and 3 KDCs: every combination of those behaviours (quick: 3 KDCs without two-writes/close-at-once). "+
+	rep.Rule = fmt.Sprintf("%d request scenarios against the real kdcproxy handler with scripted KDC connections: 1 KDC: realms {default, absent, second, unknown; for two sizes also a child realm with its own KDC and an unconfigured realm below a [domain_realm] suffix of the parent realm} x Kerberos payload sizes {0,1,3,4,5,100,1500,65535,128KiB-32} x UDP behaviour {reply, silent, refuse} x TCP behaviour {reply then close, reply and keep open, reply in two writes, half a reply then close, close at once, silent, refuse}; 2 and 3 KDCs: every combination of those behaviours (quick: 3 KDCs without two-writes/close-at-once). "+
 		"Each runs under the default schedule with deadlines firing at quiescence; selected scenarios additionally under every schedule of handler, reply readers and KDC threads up to the preemption bound. Oracle: KDCs of the right realm receive exactly the embedded message (TCP with, UDP without the 4-byte prefix); if any connection delivers a complete reply the response is 200 and its kerb-message is exactly one KDC's reply (length-prefixed); otherwise an error status; always an HTTP response and no goroutine left. Histories: 32 ordered pairs of requests in one process (first: each realm form, answered or not; second: each realm form), the second judged like a first request. Malformed requests are part of C10(d). Binding: the real rdpgw binary with a kerberos configuration and scripted KDCs on loopback TCP/UDP sockets (realms whose KDC replies over TCP, over UDP, stays silent, refuses TCP, truncates its reply; unknown realm; other methods; malformed bodies): every request gets an HTTP response with the status and bytes above. distinct_nontrivial = distinct scenarios.", len(scs))
 	rep.Assumptions = append(rep.Assumptions,
 		"a UDP write of more than 65507 bytes fails with EMSGSIZE, as on a real socket",
@@ -488,7 +500,7 @@ func c20(env *Env, rep *Report) {
 	// histories: two requests one after the other in the same execution; whatever the first one was (realm
 	// named or not), the second is judged exactly like a first request
 	if env.Shard == 0 || env.NShards == 1 {
-		realms := []string{"default", "absent", "second", "unknown"}
+		realms := []string{"default", "absent", "second", "unknown", "child", "unknown-sub"}
 		for _, r1 := range realms {
 			for _, r2 := range realms {
 				for _, tcp := range []string{"reply-close", "silent"} {
